@@ -81,6 +81,45 @@ def gmsh_mesh(case):
     return mesh
 
 
+def apply_ops(mesh, case):
+    """geometric operations and getter / point-location calls performed on the mesh BEFORE the
+    simulation is built and assembled (interleavings): case["ops"] is a list of
+      ["mirror", [nx,ny,nz]]  Mesh.Symmetry through the mesh centre (elements change orientation)
+      ["rotate", theta_deg, [dx,dy,dz]]  Mesh.Rotate about the mesh centre
+      ["evaluate"]   Mesh.Evaluate_dofsValues_at_coordinates of the field x at element centroids
+      ["signed_jacobian"]  Get_jacobian_e_pg(matrixType, absoluteValues=False) for rigi and mass
+      ["measure"]    mesh.area/volume/length and mesh.center
+    returns a log (errors of the calls are recorded, they do not abort the case)."""
+    from EasyFEA.FEM._utils import MatrixType
+    log = []
+    for op in case.get("ops") or []:
+        try:
+            if op[0] == "mirror":
+                mesh.Symmetry(mesh.center, tuple(op[1]))
+            elif op[0] == "rotate":
+                mesh.Rotate(op[1], mesh.center, tuple(op[2]))
+            elif op[0] == "evaluate":
+                X = np.asarray(mesh.coord, dtype=float)
+                conn = np.asarray(mesh.groupElem.connect)
+                sel = conn[:: max(1, conn.shape[0] // 5)][:5]
+                pts = X[sel].mean(axis=1)
+                vals = np.asarray(mesh.Evaluate_dofsValues_at_coordinates(pts, X[:, 0].copy())).ravel()
+                log.append(["evaluate_maxerr", float(np.abs(vals - pts[:, 0]).max())])
+            elif op[0] == "signed_jacobian":
+                for g in mesh.Get_list_groupElem():
+                    for mt in (MatrixType.rigi, MatrixType.mass):
+                        j = np.asarray(g.Get_jacobian_e_pg(mt, absoluteValues=False))
+                        log.append(["signed_jacobian_min", float(j.min())])
+            elif op[0] == "measure":
+                log.append(["measure", measure_of(mesh)])
+                mesh.center
+            else:
+                log.append(["unknown-op", op[0]])
+        except Exception as ex:
+            log.append(["op-error", op[0], "%s: %s" % (type(ex).__name__, ex)])
+    return log
+
+
 def spectrum(K, tolzero=1e-9):
     Kd = K.toarray() if hasattr(K, "toarray") else np.asarray(K)
     nrm = float(np.abs(Kd).max())
@@ -109,6 +148,7 @@ def run_continuum(case, mesh):
     res = {"Nn": int(mesh.Nn), "Ne": int(mesh.Ne), "dim": int(dim), "measure": measure_of(mesh),
            "measure_rigi": float(sum(np.asarray(g.Get_weightedJacobian_e_pg(MatrixType.rigi)).sum() for g in mesh.Get_list_groupElem())),
            "wJ_mass_sum": float(sum(np.asarray(g.Get_weightedJacobian_e_pg(MatrixType.mass)).sum() for g in mesh.Get_list_groupElem()))}
+    res["ops_log"] = case.get("_ops_log", [])
     rs = np.random.RandomState(case.get("field_seed", 0))
     X = np.asarray(mesh.coord, dtype=float)[:, :dim]
     if case["phys"] == "elastic":
@@ -175,17 +215,42 @@ def run_continuum(case, mesh):
     return res
 
 
+def beam_rigid_modes(coord, bd):
+    """rigid-body modes of a beam model with dofs [u] / [u, v, rz] / [u, v, w, rx, ry, rz] per node"""
+    Nn = coord.shape[0]
+    x, y, z = coord.T
+    if bd == 1:
+        return np.ones((Nn, 1))
+    if bd == 2:
+        R = np.zeros((3 * Nn, 3))
+        R[0::3, 0] = 1
+        R[1::3, 1] = 1
+        R[0::3, 2], R[1::3, 2], R[2::3, 2] = -y, x, 1
+        return R
+    R = np.zeros((6 * Nn, 6))
+    for d in range(3):
+        R[d::6, d] = 1
+    R[1::6, 3], R[2::6, 3], R[3::6, 3] = -z, y, 1
+    R[0::6, 4], R[2::6, 4], R[4::6, 4] = z, -x, 1
+    R[0::6, 5], R[1::6, 5], R[5::6, 5] = -y, x, 1
+    return R
+
+
 def run_beam(case):
     from EasyFEA import Mesher, Models, Simulations
     from EasyFEA.FEM._utils import ElemType
     from EasyFEA.Geoms import Domain, Point, Line
     bd = case["beamDim"]
-    L, n = case["L"], case["n"]
+    n = case["n"]
     b, h = case["b"], case["h"]
+    p1 = case.get("p1", [0.0, 0.0, 0.0])
+    p2 = case.get("p2", [case.get("L", 1.0), 0.0, 0.0])
+    L = float(np.linalg.norm(np.array(p2) - np.array(p1)))
     mesher = Mesher()
     section = mesher.Mesh_2D(Domain(Point(-b / 2, -h / 2), Point(b / 2, h / 2)))
-    line = Line(Point(), Point(x=L), L / n)
-    beam = Models.Beam.Isotropic(bd, line, section, case["E"], case["v"])
+    line = Line(Point(*p1), Point(*p2), L / n)
+    kw = {} if case.get("yAxis") is None else {"yAxis": tuple(case["yAxis"])}
+    beam = Models.Beam.Isotropic(bd, line, section, case["E"], case["v"], **kw)
     mesh = mesher.Mesh_Beams([beam], elemType=getattr(ElemType, case["elem"]))
     structure = Models.Beam.BeamStructure([beam])
     simu = Simulations.Beam(mesh, structure, useTimoshenko=case["timo"], verbosity=False)
@@ -196,13 +261,20 @@ def run_beam(case):
     dofs = used_dofs(mesh, dof_n)
     sK, Kd = spectrum(K[dofs][:, dofs])
     sM, Md = spectrum(M[dofs][:, dofs])
-    res = {"Nn": int(mesh.Nn), "Ne": int(mesh.Ne), "dof_n": int(dof_n), "K": sK, "M": sM,
-           "mass_prop": float(simu.mass), "area": float(section.area), "M_dir": []}
+    P = np.asarray(beam._Calc_P(), dtype=float)
+    res = {"Nn": int(mesh.Nn), "Ne": int(mesh.Ne), "dof_n": int(dof_n), "K": sK, "M": sM, "L": L,
+           "mass_prop": float(simu.mass), "area": float(section.area), "M_dir": [],
+           "frame_orthonormality_defect": float(np.abs(P.T @ P - np.eye(3)).max())}
     ntrans = {1: 1, 2: 2, 3: 3}[bd]
     for m in range(ntrans):
         t = np.zeros(mesh.Nn * dof_n)
         t[m::dof_n] = 1.0
         res["M_dir"].append(float(t @ (M @ t)))
+    R = beam_rigid_modes(np.asarray(mesh.coord, dtype=float), bd)
+    if bd == 1:
+        R = R.reshape(-1, 1)
+    KR = K @ R
+    res["rigid_residual"] = [float(np.abs(KR[:, k]).max() / (sK["absmax"] * max(np.abs(R[:, k]).max(), 1e-300))) for k in range(R.shape[1])]
     return res
 
 
@@ -241,10 +313,10 @@ def run_layout(case):
 
 def run_case(case):
     try:
-        if case["kind"] == "patch":
-            return run_continuum(case, build_patch_mesh(case))
-        if case["kind"] == "gmsh":
-            return run_continuum(case, gmsh_mesh(case))
+        if case["kind"] in ("patch", "gmsh"):
+            mesh = build_patch_mesh(case) if case["kind"] == "patch" else gmsh_mesh(case)
+            case = dict(case, _ops_log=apply_ops(mesh, case))
+            return run_continuum(case, mesh)
         if case["kind"] == "beam":
             return run_beam(case)
         if case["kind"] == "layout":
